@@ -17,6 +17,8 @@ VARIABLES st, last
 vars == <<st, last>>
 InitSt(kind, ror) == [kind |-> kind, ror |-> ror, held |-> "idle",      \* what the current user holds: "idle" (nobody) | "conn" | "raw"
            root |-> FALSE,       \* the Connection has an (auto)begun RootTransaction
+           failed |-> FALSE,     \* ... whose commit() failed with a non-disconnect error: inactive but still attached; the
+                                 \* database transaction is still open
            txn |-> FALSE,        \* DBAPI-level transaction open on the pooled connection
            dirty |-> {},         \* uncommitted rows of that transaction
            committed |-> {},     \* rows other connections see
@@ -39,19 +41,26 @@ Reset(s, wasReset) ==
 Finalize(s) == IF s.fin THEN [s EXCEPT !.iso = "default", !.fin = FALSE] ELSE s
 \* NullPool closes the DBAPI connection after the reset: whatever was left on it is gone (sqlite rolls back on close)
 Return(s, wasReset) == LET s1 == [Finalize(Reset(s, wasReset)) EXCEPT !.held = "idle", !.root = FALSE]
-                       IN IF s.kind = "null" THEN [DbRollback(s1) EXCEPT !.iso = "default"] ELSE s1
+                       IN IF s.kind = "null" THEN [DbRollback(s1) EXCEPT !.iso = "default", !.failed = FALSE] ELSE [s1 EXCEPT !.failed = FALSE]
 \* ---- operations ----
 DoCheckout(s, mode) ==
    LET s1 == IF s.kind = "null" \/ s.cid = 0
              THEN [s EXCEPT !.cid = @ + 1, !.txn = FALSE, !.dirty = {}, !.iso = "default", !.fin = FALSE]   \* a fresh DBAPI connection
              ELSE s
    IN R([s1 EXCEPT !.held = mode, !.nco = @ + 1], "ok")
-DoExec(s) == LET k == s.nrow + 1 IN R(DbWrite([s EXCEPT !.root = TRUE, !.nrow = k], k), "ok")
+DoExec(s) == LET k == s.nrow + 1 IN
+             IF s.failed THEN R([s EXCEPT !.nrow = k], "PendingRollbackError")
+             ELSE R(DbWrite([s EXCEPT !.root = TRUE, !.nrow = k], k), "ok")
 \* a statement that fails with a non-disconnect error (duplicate key): autobegin happened, pysqlite opened its transaction
 DoExecFail(s) == R([s EXCEPT !.root = TRUE, !.txn = (s.iso # "ac") \/ s.txn], "IntegrityError")
 DoBegin(s) == IF s.root THEN R(s, "InvalidRequestError") ELSE R([s EXCEPT !.root = TRUE], "ok")
-DoCommit(s) == IF s.root THEN R([DbCommit(s) EXCEPT !.root = FALSE], "ok") ELSE R(s, "ok")
-DoRollback(s) == IF s.root THEN R([DbRollback(s) EXCEPT !.root = FALSE], "ok") ELSE R(s, "ok")
+DoCommit(s) == IF s.failed THEN R(s, "PendingRollbackError")
+               ELSE IF s.root THEN R([DbCommit(s) EXCEPT !.root = FALSE], "ok") ELSE R(s, "ok")
+\* the DBAPI commit raises an ordinary (non-disconnect) error and the database keeps the transaction open
+\* (SQLite: "database is locked" at COMMIT, a deferred constraint failing at COMMIT)
+DoCommitFail(s) == R([s EXCEPT !.failed = TRUE], "OperationalError")
+\* rollback() also emits the DBAPI rollback for a root whose commit failed (inactive but attached)
+DoRollback(s) == IF s.root THEN R([DbRollback(s) EXCEPT !.root = FALSE, !.failed = FALSE], "ok") ELSE R(s, "ok")
 \* Connection.execution_options(isolation_level=...): refused inside a transaction; otherwise set + register the reset finalizer
 DoSetIso(s, lvl) == IF s.root THEN R(s, "InvalidRequestError")
                     \* driver semantics (sqlite3): switching the connection to autocommit (isolation_level = None) commits a
@@ -70,11 +79,12 @@ DoRawClose(s) == R(Return(s, FALSE), "ok")
 Step(name, arg, res) == st' = res.st /\ last' = [a |-> name, arg |-> arg, ret |-> res.ret]
 Checkout == st.held = "idle" /\ st.nco < MaxCheckouts /\ \E m \in {"conn", "raw"} : Step("Checkout", m, DoCheckout(st, m))
 Exec == st.held = "conn" /\ st.nrow < MaxRows /\ Step("Exec", "", DoExec(st))
-ExecFail == st.held = "conn" /\ st.committed # {} /\ Step("ExecFail", "", DoExecFail(st))
+ExecFail == st.held = "conn" /\ ~st.failed /\ st.committed # {} /\ Step("ExecFail", "", DoExecFail(st))
 Begin == st.held = "conn" /\ Step("Begin", "", DoBegin(st))
 Commit == st.held = "conn" /\ Step("Commit", "", DoCommit(st))
+CommitFail == st.held = "conn" /\ st.root /\ ~st.failed /\ Step("CommitFail", "", DoCommitFail(st))
 Rollback == st.held = "conn" /\ Step("Rollback", "", DoRollback(st))
-SetIso == st.held = "conn" /\ \E lvl \in {"ru", "ac"} : Step("SetIso", lvl, DoSetIso(st, lvl))
+SetIso == st.held = "conn" /\ ~st.failed /\ \E lvl \in {"ru", "ac"} : Step("SetIso", lvl, DoSetIso(st, lvl))
 Close == st.held = "conn" /\ Step("Close", "", DoClose(st))
 Drop == st.held \in {"conn", "raw"} /\ Step("Drop", "", DoDrop(st))
 RawExec == st.held = "raw" /\ st.nrow < MaxRows /\ Step("RawExec", "", DoRawExec(st))
@@ -82,7 +92,7 @@ RawCommit == st.held = "raw" /\ Step("RawCommit", "", DoRawCommit(st))
 RawRollback == st.held = "raw" /\ Step("RawRollback", "", DoRawRollback(st))
 RawClose == st.held = "raw" /\ Step("RawClose", "", DoRawClose(st))
 Init == st \in {InitSt(k, r) : k \in Kinds, r \in Rors} /\ last = [a |-> "init", arg |-> "", ret |-> "ok"]
-Next == Checkout \/ Exec \/ ExecFail \/ Begin \/ Commit \/ Rollback \/ SetIso \/ Close \/ Drop
+Next == Checkout \/ Exec \/ ExecFail \/ Begin \/ Commit \/ CommitFail \/ Rollback \/ SetIso \/ Close \/ Drop
         \/ RawExec \/ RawCommit \/ RawRollback \/ RawClose
 Spec == Init /\ [][Next]_vars
 View == st
